@@ -106,6 +106,11 @@ class MemoryWorkflowStore(AbstractWorkflowStore):
 
     async def update(self, handler: PersistentHandler) -> None:
         self.handlers[handler.handler_id] = handler
+        # One queue entry per completed handler: drop the entry left by an
+        # earlier completion (or by a handler that is being re-opened), so the
+        # cap counts completed handlers and not queue entries.
+        if handler.handler_id in self._terminal_queue:
+            self._terminal_queue.remove(handler.handler_id)
         if is_terminal_status(handler.status):
             self._terminal_queue.append(handler.handler_id)
             self._evict_oldest_completed()
@@ -118,6 +123,8 @@ class MemoryWorkflowStore(AbstractWorkflowStore):
         ]
         for handler_id in to_delete:
             del self.handlers[handler_id]
+            if handler_id in self._terminal_queue:
+                self._terminal_queue.remove(handler_id)
         return len(to_delete)
 
     def _evict_oldest_completed(self) -> None:
